@@ -54,7 +54,7 @@ def events(tier):
         out.append((b, 1500.0, -0.5, 0.0, 1500.0, 1.0))
     for b, th, L, E in itertools.product(betas, thetas, Ls, Es):
         ls = [0.0, L * math.cos(th)]
-        for a in (1e-9, 5.0, float(np.nextafter(10.0, 0)), 10.0, float(np.nextafter(10.0, 11)), 15.0):
+        for a in (1e-9, 5.0, 6.0, float(np.nextafter(10.0, 0)), 10.0, float(np.nextafter(10.0, 11)), 15.0):
             ls.append(len_for_alt(a, b))
         for l in ls:
             if th == 0.0 and l == L:
@@ -283,6 +283,16 @@ def judge_events(alt, iono, band, evs, tier):
                 ok = np.all((ulps(sN, math.sqrt(N) * sN1) <= 16) | (sN1 == 0))
             if not ok:
                 out.append(("snr_sqrt_antennas", f"N={N}", "not sqrt(N)", None))
+        # the antenna count handed in as a NumPy integer scalar / 0-d array / float is the same count
+        for N, form in ((16, np.int64), (9, np.int32), (4, np.uint8), (25, np.array), (4, float), (16, np.float64)):
+            try:
+                sN = snr_of(cfg, eff, nant=form(N))
+                with np.errstate(all="ignore"):
+                    ok = np.all((ulps(sN, math.sqrt(N) * sN1) <= 16) | (sN1 == 0))
+            except Exception as ex:
+                ok = False
+            if not ok:
+                out.append(("snr_sqrt_antennas", f"N={N} as {getattr(form, '__name__', form)}", "not sqrt(N)", None))
     nz = int((np.abs(ef).max(axis=1) > 1e-30).sum())
     return out, (int(inr.sum()), int((~inr).sum()), int(fin.sum()), nz)
 
@@ -363,7 +373,7 @@ def run(ctx):
     ctx.cov["events"] = len(evs)
     ne = 0
     nonzero_rows = inrange_rows = 0
-    for alt, iono, band in itertools.product([3.0, 33.0, 89.0, 91.0, 525.0], [True, False], [(30, 300), (300, 1000)] if tier == "quick" else [(30, 300), (300, 1000), (30, 80), (200, 1200), (500, 510)]):
+    for alt, iono, band in itertools.product([3.0, 33.0, 89.0, 91.0, 525.0], [True, False], [(30, 300), (300, 1000), (0, 1650)] if tier == "quick" else [(30, 300), (300, 1000), (30, 80), (200, 1200), (500, 510), (0, 1650), (1400, 1650)]):
         v, info = judge_events(alt, iono, band, evs, tier)
         ne += len(evs)
         ctx.tick(len(evs) * 8, ("ev", alt, iono, band, info))
